@@ -1216,12 +1216,22 @@ def check_scalartypes(run, rule='R10g'):
     if tbl is None:
         run.error('R10g: _scalartypes table not found in base/argcheck (anchor not found in the current source)', hard=True)
         return
+    modvals = {}
+    for st in mod.tree.body:
+        if isinstance(st, ast.Assign) and len(st.targets) == 1 and isinstance(st.targets[0], ast.Name):
+            modvals[st.targets[0].id] = st.value
     names = set()
-    for y in ast.walk(tbl.value):
-        if isinstance(y, ast.Name):
-            names.add(y.id)
-        elif isinstance(y, ast.Attribute):
-            names.add(y.attr)
+
+    def collect(e, depth=0):
+        for y in ast.walk(e):
+            if isinstance(y, ast.Name):
+                if y.id in modvals and y.id != '_scalartypes' and depth < 4:
+                    collect(modvals[y.id], depth + 1)      # a named part of the table (_realtypes + sym.symtype)
+                else:
+                    names.add(y.id)
+            elif isinstance(y, ast.Attribute):
+                names.add(y.attr)
+    collect(tbl.value)
     need = {'int', 'float', 'integer', 'floating'}
     alt = {'integer': {'number', 'generic', 'Integral', 'Real', 'Number'}, 'floating': {'number', 'generic', 'Real', 'Number'}}
     missing = [k for k in sorted(need) if k not in names and not (alt.get(k, set()) & names)]
